@@ -342,6 +342,184 @@ func vlimitKB(race bool) int {
 	return 8 << 20 // 8 GiB of address space
 }
 
+// ---- race probe (C15) -----------------------------------------------------------------------------
+
+// runRacePhase runs the free-running race build (DESIGN 12.13) and turns every
+// distinct race report into a violation record with signature race:<fn>|<fn>.
+func runRacePhase(spec propSpec, seed uint64, ts tierSpec, a *agg, replayDir string) {
+	bdir := build(true)
+	wall := ts.Wall / 3
+	if wall < 20*time.Second {
+		wall = 20 * time.Second
+	}
+	deadline := time.Now().Add(wall)
+	var wg sync.WaitGroup
+	var mu sync.Mutex
+	next := uint64(0)
+	seen := map[string]bool{}
+	for w := 0; w < ts.Workers; w++ {
+		wg.Add(1)
+		go func(w int) {
+			defer wg.Done()
+			for time.Now().Before(deadline) {
+				mu.Lock()
+				from := next
+				next += 4
+				mu.Unlock()
+				tmp, err := os.MkdirTemp("/dev/shm", "verif-race-job-")
+				if err != nil {
+					return
+				}
+				jb := job{Profile: "racefree", BaseSeed: seed, From: from, Count: 4, Out: filepath.Join(tmp, "out.jsonl"), MaxWallS: int(time.Until(deadline).Seconds()) + 1}
+				jbytes, _ := json.Marshal(jb)
+				jf := filepath.Join(tmp, "job.json")
+				_ = os.WriteFile(jf, jbytes, 0644)
+				logp := filepath.Join(tmp, "race.log")
+				cmd := exec.Command(filepath.Join(bdir, "raft.race.test"), "-test.run", "^TestRaceWorker$", "-test.timeout", "0")
+				cmd.Env = append(env(), "VERIF_JOB="+jf, "GOMAXPROCS=4", "GORACE=halt_on_error=0 exitcode=66 log_path="+logp, "GOMEMLIMIT=3GiB")
+				outb, werr := cmd.CombinedOutput()
+				// results
+				var results []runResult
+				var inProgress *uint64
+				if f, err := os.Open(jb.Out); err == nil {
+					sc := bufio.NewScanner(f)
+					sc.Buffer(make([]byte, 1<<20), 16<<20)
+					for sc.Scan() {
+						var r runResult
+						if json.Unmarshal(sc.Bytes(), &r) != nil {
+							continue
+						}
+						if r.Starting != nil {
+							inProgress = r.Starting
+							continue
+						}
+						inProgress = nil
+						r.Nontrivial = map[string]bool{"C15": r.Faults["updates"] > 0 && (r.Faults["snapshot"]+r.Faults["member"]+r.Faults["transfer"]+r.Faults["restart"]) >= 3}
+						results = append(results, r)
+					}
+					f.Close()
+				}
+				reports := parseRaceLogs(tmp)
+				mu.Lock()
+				a.mu.Lock()
+				for i := range results {
+					results[i].Profile = "racefree"
+				}
+				a.results = append(a.results, results...)
+				for _, rep := range reports {
+					if seen[rep.sig] {
+						continue
+					}
+					seen[rep.sig] = true
+					rp := filepath.Join(replayDir, fmt.Sprintf("C15-race-%x.json", hash64(rep.sig)))
+					rb, _ := json.Marshal(map[string]interface{}{"property": "C15", "oracle": "data_race", "signature": rep.sig, "engine": "race", "seed": jb.BaseSeed, "from": from, "message": rep.text})
+					_ = os.WriteFile(rp, rb, 0644)
+					a.violations = append(a.violations, runResult{Seed: jb.BaseSeed*1000003 + from, Profile: "racefree", ReplayAt: rp, Steps: 1 << 60,
+						Violation: &violation{Prop: "C15", Oracle: "data_race", Sig: rep.sig, Msg: rep.text}})
+				}
+				if werr != nil && len(reports) == 0 {
+					// died without a race report: a fatal error (concurrent map access), a panic or a bubble deadlock
+					text := string(outb)
+					if len(text) > 4000 {
+						text = text[len(text)-4000:]
+					}
+					sig := "fatal:" + fatalSig(string(outb))
+					if !seen[sig] {
+						seen[sig] = true
+						s := uint64(0)
+						if inProgress != nil {
+							s = *inProgress
+						}
+						rp := filepath.Join(replayDir, fmt.Sprintf("C15-race-%x.json", hash64(sig)))
+						rb, _ := json.Marshal(map[string]interface{}{"property": "C15", "oracle": "fatal_in_free_running_mode", "signature": sig, "engine": "race", "seed": jb.BaseSeed, "from": from, "message": text})
+						_ = os.WriteFile(rp, rb, 0644)
+						a.violations = append(a.violations, runResult{Seed: s, Profile: "racefree", ReplayAt: rp, Steps: 1 << 60,
+							Violation: &violation{Prop: "C15", Oracle: "fatal_in_free_running_mode", Sig: sig, Msg: text}})
+					}
+				}
+				a.mu.Unlock()
+				mu.Unlock()
+				_ = os.RemoveAll(tmp)
+			}
+		}(w)
+	}
+	wg.Wait()
+}
+
+func hash64(s string) uint64 {
+	h := sha256.Sum256([]byte(s))
+	var v uint64
+	for i := 0; i < 8; i++ {
+		v = v<<8 | uint64(h[i])
+	}
+	return v
+}
+
+type raceReport struct{ sig, text string }
+
+// parseRaceLogs reads the race detector's log files of one worker.
+func parseRaceLogs(dir string) []raceReport {
+	var out []raceReport
+	ents, _ := os.ReadDir(dir)
+	for _, e := range ents {
+		if !strings.HasPrefix(e.Name(), "race.log") {
+			continue
+		}
+		b, err := os.ReadFile(filepath.Join(dir, e.Name()))
+		if err != nil {
+			continue
+		}
+		for _, block := range strings.Split(string(b), "==================") {
+			if !strings.Contains(block, "WARNING: DATA RACE") {
+				continue
+			}
+			var fns []string
+			lines := strings.Split(block, "\n")
+			for i, l := range lines {
+				t := strings.TrimSpace(l)
+				if strings.HasPrefix(t, "Read at") || strings.HasPrefix(t, "Write at") || strings.HasPrefix(t, "Previous read at") || strings.HasPrefix(t, "Previous write at") {
+					// first frame of the code under test below this access
+					fn := "?"
+					for j := i + 1; j < len(lines); j++ {
+						f := strings.TrimSpace(lines[j])
+						if f == "" {
+							break
+						}
+						if strings.Contains(f, "santhosh-tekuri/raft") && strings.HasSuffix(f, "()") && !strings.Contains(f, "zz_verif") {
+							f = strings.TrimSuffix(f, "()")
+							if k := strings.LastIndex(f, "/"); k >= 0 {
+								f = f[k+1:]
+							}
+							fn = strings.ReplaceAll(f, "__sim", "")
+							break
+						}
+					}
+					fns = append(fns, fn)
+				}
+			}
+			sort.Strings(fns)
+			text := block
+			if len(text) > 5000 {
+				text = text[:5000]
+			}
+			out = append(out, raceReport{"race:" + strings.Join(fns, "|"), text})
+		}
+	}
+	return out
+}
+
+func fatalSig(out string) string {
+	for _, l := range strings.Split(out, "\n") {
+		if strings.HasPrefix(l, "fatal error:") || strings.HasPrefix(l, "panic:") {
+			if len(l) > 120 {
+				l = l[:120]
+			}
+			return l
+		}
+	}
+	return "worker died"
+}
+
 // ---- known findings ---------------------------------------------------------------------------
 
 type finding struct {
@@ -364,10 +542,34 @@ func loadFindings() []finding {
 	return fs
 }
 
+// sigMatch: exact, or a glob in which '*' matches any run of characters.
+func sigMatch(listed, got string) bool {
+	if !strings.Contains(listed, "*") {
+		return listed == got
+	}
+	parts := strings.Split(listed, "*")
+	if !strings.HasPrefix(got, parts[0]) {
+		return false
+	}
+	got = got[len(parts[0]):]
+	for i := 1; i < len(parts); i++ {
+		p := parts[i]
+		if i == len(parts)-1 {
+			return strings.HasSuffix(got, p)
+		}
+		k := strings.Index(got, p)
+		if k < 0 {
+			return false
+		}
+		got = got[k+len(p):]
+	}
+	return true
+}
+
 func matchOpen(fs []finding, v *violation) *finding {
 	for i := range fs {
 		f := &fs[i]
-		if f.Status == "open" && f.Property == v.Prop && f.Signature == v.Sig {
+		if f.Status == "open" && f.Property == v.Prop && sigMatch(f.Signature, v.Sig) {
 			return f
 		}
 	}
@@ -430,7 +632,7 @@ func main() {
 		}
 		os.Exit(cmdSelftest(os.Args[2:]))
 	case "build":
-		fmt.Println(build(false))
+		fmt.Println(build(len(os.Args) > 2 && os.Args[2] == "race"))
 		return
 	}
 	id := os.Args[1]
@@ -562,6 +764,9 @@ func cmdCheck(spec propSpec, tier string) int {
 		}()
 	}
 	wg.Wait()
+	if spec.Race {
+		runRacePhase(spec, seed, ts, &a, replayDir)
+	}
 
 	if len(a.infra) > 0 {
 		fmt.Fprintf(os.Stderr, "check: simulator trouble (exit 2), first of %d:\n%s\n", len(a.infra), a.infra[0])
@@ -830,11 +1035,14 @@ func replayOnce(bdir string, path string, outDir string, trace string) (*runResu
 }
 
 func cmdReplay(path string) int {
-	bdir := build(false)
 	rf, err := loadReplay(path)
 	if err != nil {
 		fatal2("%v", err)
 	}
+	if rf.Engine == "race" {
+		return replayRace(path, rf)
+	}
+	bdir := build(false)
 	tmp, _ := os.MkdirTemp("/dev/shm", "verif-replay-")
 	defer os.RemoveAll(tmp)
 	trace := os.Getenv("VERIF_TRACE")
@@ -856,6 +1064,39 @@ func cmdReplay(path string) int {
 	}
 	fmt.Printf("VIOLATION property=%s replay=%s\n  reproduced: oracle=%s signature=%q step=%d (recorded step %d)\n  %s\n", v.Prop, path, v.Oracle, v.Sig, v.Step, rf.Step, firstLines(v.Msg, 30))
 	return 1
+}
+
+// replayRace re-runs the seeds of a race report in the free-running race build. The
+// interleaving is the Go scheduler's, so the same pair of access sites is looked for over
+// several attempts; not finding it again is inconclusive (exit 2), never a pass.
+func replayRace(path string, rf *replayFile) int {
+	b, _ := os.ReadFile(path)
+	var raw struct {
+		Seed uint64 `json:"seed"`
+		From uint64 `json:"from"`
+	}
+	_ = json.Unmarshal(b, &raw)
+	bdir := build(true)
+	for attempt := 0; attempt < 12; attempt++ {
+		tmp, _ := os.MkdirTemp("/dev/shm", "verif-race-replay-")
+		jb := job{Profile: "racefree", BaseSeed: raw.Seed, From: raw.From, Count: 4, Out: filepath.Join(tmp, "out.jsonl"), MaxWallS: 120}
+		jbytes, _ := json.Marshal(jb)
+		jf := filepath.Join(tmp, "job.json")
+		_ = os.WriteFile(jf, jbytes, 0644)
+		cmd := exec.Command(filepath.Join(bdir, "raft.race.test"), "-test.run", "^TestRaceWorker$", "-test.timeout", "0")
+		cmd.Env = append(env(), "VERIF_JOB="+jf, "GOMAXPROCS=4", "GORACE=halt_on_error=0 exitcode=66 log_path="+filepath.Join(tmp, "race.log"))
+		_, _ = cmd.CombinedOutput()
+		reps := parseRaceLogs(tmp)
+		_ = os.RemoveAll(tmp)
+		for _, r := range reps {
+			if r.sig == rf.Signature {
+				fmt.Printf("VIOLATION property=C15 replay=%s\n  reproduced (attempt %d): %s\n%s\n", path, attempt+1, r.sig, firstLines(r.text, 40))
+				return 1
+			}
+		}
+	}
+	fmt.Printf("replay of %s: the race %q was not reported again in 12 attempts (free-running mode is not deterministic)\n", path, rf.Signature)
+	return 2
 }
 
 // shrink minimises the tape of a replay file while the same property and
